@@ -138,7 +138,9 @@ type c04File struct {
 
 func c04Scenario(c *Ctx, idx int, r *Rng) (mlines, mimpl, mcase []string) {
 	base := filepath.Join(c.Work, fmt.Sprintf("c04-%d", idx))
-	defer os.RemoveAll(base)
+	if os.Getenv("VERIF_KEEP") == "" {
+		defer os.RemoveAll(base)
+	}
 	os.MkdirAll(base, 0o755)
 	srv := newLfsServer()
 	defer srv.srv.Close()
@@ -155,6 +157,7 @@ func c04Scenario(c *Ctx, idx int, r *Rng) (mlines, mimpl, mcase []string) {
 	o.write(".gitattributes", []byte("*.bin filter=lfs diff=lfs merge=lfs -text\n*.dat filter=lfs -text\n"))
 	names := []string{"a.bin", "b.bin", "dir/c.bin", "dir/sub/e.bin", "d.dat", "dir/f.dat", "dup.bin", "plain.txt"}
 	var shared []byte
+	written := map[string][]byte{}
 	writeAll := func(gen int) {
 		for _, nme := range names {
 			if r.Chance(25) && gen > 0 {
@@ -172,8 +175,30 @@ func c04Scenario(c *Ctx, idx int, r *Rng) (mlines, mimpl, mcase []string) {
 				b = []byte{} // an empty LFS file
 			}
 			o.write(nme, b)
+			written[nme] = b
 		}
 		o.git("add", "-A")
+		// some pointers are committed in a non-canonical but valid spelling (written by older clients or other
+		// tools): legacy version lines, no final newline, CRLF — the smallest of them are shorter than any
+		// pointer the current writer produces
+		for _, nme := range names {
+			b := written[nme]
+			if len(b) == 0 || !(strings.HasSuffix(nme, ".bin") || strings.HasSuffix(nme, ".dat")) || !r.Chance(15) {
+				continue
+			}
+			canon := string(canonicalPointer(sha(b), int64(len(b))))
+			variant := Pick(r, []string{
+				strings.Replace(canon, "https://git-lfs.github.com/spec/v1", "https://hawser.github.com/spec/v1", 1),
+				strings.Replace(canon, "https://git-lfs.github.com/spec/v1", "http://git-media.io/v/2", 1),
+				strings.TrimSuffix(canon, "\n"),
+				strings.ReplaceAll(canon, "\n", "\r\n")})
+			blob, code := runInStdin(o.dir, variant, "git", "hash-object", "-w", "--stdin", "--no-filters")
+			if code == 0 {
+				o.git("update-index", "--cacheinfo", "100644,"+strings.TrimSpace(blob)+","+nme)
+				log("commit %s as a non-canonical pointer (%d bytes)", nme, len(variant))
+				c.R.Count("committed.non-canonical-pointer")
+			}
+		}
 		o.git("commit", "-qm", fmt.Sprintf("c%d", gen))
 	}
 	writeAll(0)
@@ -283,7 +308,7 @@ func c04Scenario(c *Ctx, idx int, r *Rng) (mlines, mimpl, mcase []string) {
 				if !objPresent(f.oid) {
 					fail("after `git clone` a selected LFS file has no hash-valid object in local storage", f.path)
 				}
-			} else if !bytes.Equal(got, f.pointer) {
+			} else if !c04SamePointer(got, f) {
 				fail("after `git clone` an excluded LFS file is not the committed pointer", fmt.Sprintf("%s: %q", f.path, clip(string(got), 120)))
 			}
 		}
@@ -450,7 +475,9 @@ func c04Scenario(c *Ctx, idx int, r *Rng) (mlines, mimpl, mcase []string) {
 			changedSinceV0[strings.TrimSpace(l)] = true
 		}
 		// move to v0 with skip-smudge, then back to <ref> with smudging: the files changed between the two are smudged
-		runIn(cl.dir, append(append([]string(nil), cl.env...), skipEnv...), "git", "checkout", "-q", "v0")
+		// -f: a file committed as a non-canonical pointer counts as modified right after a skip-smudge clone
+		// (the filter writes the canonical spelling), and a plain checkout would refuse to leave the commit
+		runIn(cl.dir, append(append([]string(nil), cl.env...), skipEnv...), "git", "checkout", "-q", "-f", "v0")
 		if skipBack = r.Chance(35); skipBack {
 			// … and back with smudging SKIPPED: whatever is already in local storage or a reference store,
 			// every rewritten file stays the pointer
@@ -489,9 +516,9 @@ func c04Scenario(c *Ctx, idx int, r *Rng) (mlines, mimpl, mcase []string) {
 			}
 			if allowed && !skipBack {
 				if !bytes.Equal(after, f.content) {
-					fail("after `git checkout` with the smudge filter a selected LFS file does not have the original bytes", fmt.Sprintf("%s: %d bytes want %d", f.path, len(after), len(f.content)))
+					fail("after `git checkout` with the smudge filter a selected LFS file does not have the original bytes", fmt.Sprintf("%s: %d bytes want %d: %q | checkout said: %s", f.path, len(after), len(f.content), clip(string(after), 140), clip(cout, 300)))
 				}
-			} else if !bytes.Equal(after, f.pointer) {
+			} else if !c04SamePointer(after, f) {
 				if localBefore[f.oid] {
 					c.R.Count("excluded-or-skipped.object-was-local")
 				}
@@ -597,6 +624,9 @@ func c04(c *Ctx) {
 					c.R.Add(Finding{Kind: "diff", What: fmt.Sprintf("scenario harness problem: %v", x), Broken: "corr.C04.scenario"})
 				}
 			}()
+			if only := os.Getenv("VERIF_ONLY_IDX"); only != "" && only != fmt.Sprint(i) {
+				return // debugging aid: run one scenario of the sequence
+			}
 			l, m, cs := c04Scenario(c, i, rs)
 			mu.Lock()
 			lines = append(lines, l...)
@@ -628,11 +658,79 @@ func c04(c *Ctx) {
 		}
 	}
 	c04CheckoutTo(c, r.Fork())
+	c04ExtPointer(c, r.Fork())
 }
 
 // c04CheckoutTo: `git lfs checkout --to <file> --ours|--theirs|--base <path>` during a conflicted merge —
 // smudging into a NAMED file over whatever already sits there {no file, the same bytes, other bytes of the
 // same length, shorter, longer}.
+// c04ExtPointer: pointers that name a pointer EXTENSION this client has no configuration for (the repository
+// was written with `lfs.extension.<name>` set up elsewhere). Such a file cannot be smudged here; whatever
+// pull / checkout report, the working file must stay a valid spelling of its pointer (or become the content).
+func c04ExtPointer(c *Ctx, r *Rng) {
+	n := c.N(10, 200)
+	for i := 0; i < n; i++ {
+		base := filepath.Join(c.Work, fmt.Sprintf("c04x-%d", i))
+		srv := newLfsServer()
+		w, err := newScenRepo(c, filepath.Join(base, "w"), srv)
+		if err != nil {
+			srv.srv.Close()
+			continue
+		}
+		content := r.Bytes(Pick(r, []int{40, 3000}))
+		plain := r.Bytes(500)
+		oid := sha(content)
+		srv.mu.Lock()
+		srv.objs[oid], srv.objs[sha(plain)] = content, plain
+		srv.mu.Unlock()
+		ptr := fmt.Sprintf("version https://git-lfs.github.com/spec/v1\next-0-%s sha256:%s\noid sha256:%s\nsize %d\n", Pick(r, []string{"foo", "zip"}), sha(r.Bytes(8)), oid, len(content))
+		w.write(".gitattributes", []byte("*.bin filter=lfs -text\n"))
+		w.write("ext.bin", []byte(ptr))
+		w.write("plain.bin", canonicalPointer(sha(plain), int64(len(plain))))
+		w.gitEnv([]string{"GIT_LFS_SKIP_SMUDGE=1"}, "add", "-A")
+		w.git("commit", "-qm", "pointers")
+		local := r.Bool()
+		if local {
+			p := w.objectPath(oid)
+			os.MkdirAll(filepath.Dir(p), 0o755)
+			os.WriteFile(p, content, 0o644)
+		}
+		if r.Chance(30) {
+			os.Remove(filepath.Join(w.dir, "ext.bin"))
+		}
+		cmd := Pick(r, [][]string{{"pull"}, {"checkout"}, {"checkout", "ext.bin"}})
+		out, code := w.runLfs(cmd...)
+		after, aerr := os.ReadFile(filepath.Join(w.dir, "ext.bin"))
+		enc := fmt.Sprintf("C04 ext-pointer seed=%d idx=%d object-local=%v cmd=%s", c.Seed, i, local, strings.Join(cmd, " "))
+		c.R.Eval(enc, true)
+		c.R.Count("ext-pointer")
+		okPtr := false
+		if p, ok := isPointerText(after); ok && p.Oid == oid {
+			okPtr = true
+		}
+		if aerr == nil && !okPtr && !bytes.Equal(after, content) {
+			c.R.Add(Finding{Kind: "oracle", What: "`git lfs " + cmd[0] + "` left a working file that is neither a valid pointer for its object nor the object's bytes", Case: enc,
+				Impl: fmt.Sprintf("ext.bin: %d bytes %q; exit %d: %s", len(after), clip(string(after), 60), code, clip(out, 200))})
+		}
+		if b, err := os.ReadFile(filepath.Join(w.dir, "plain.bin")); cmd[0] == "pull" && (err != nil || !bytes.Equal(b, plain)) && code == 0 {
+			c.R.Add(Finding{Kind: "oracle", What: "`git lfs " + cmd[0] + "` exited 0 but an ordinary LFS file beside a pointer with an unknown extension was not materialised", Case: enc, Impl: clip(out, 200)})
+		}
+		srv.srv.Close()
+		os.RemoveAll(base)
+		os.Remove(base + "/w.gitconfig")
+	}
+}
+
+// c04SamePointer: the bytes are the committed pointer, or (the smudge filter re-encodes a pointer it passes
+// on) another valid spelling of the same pointer: same object id, same size
+func c04SamePointer(b []byte, f *c04File) bool {
+	if bytes.Equal(b, f.pointer) {
+		return true
+	}
+	p, ok := isPointerText(b)
+	return ok && p.Oid == f.oid && p.Size == int64(len(f.content))
+}
+
 func c04CheckoutTo(c *Ctx, r *Rng) { smudgeToFileCampaign(c, r, "C04") }
 
 func smudgeToFileCampaign(c *Ctx, r *Rng, prop string) {
